@@ -2,7 +2,7 @@
    every operation mode, the registers of _set_offline / _clear_battery_mode_param and the numeric values of OperationMode are emitted from
    the current source by tools/om2v.py (Gen/ModesGen.v); this file gives the steps their meaning. *)
 From Coq Require Import ZArith List Bool String.
-From GW Require Import Prelude PyStr PyFloat Sensors Settings.
+From GW Require Import Prelude PyStr PyFloat Sensors Settings SchedDef.
 Import ListNotations.
 Open Scope Z_scope.
 
@@ -20,6 +20,7 @@ Record mctx := mkCtx {
   c_shape : ws_shape;
   c_is745 : bool;
   c_prev_ty : Z;                      (* schedule type left in the (shared) eco_mode_1 definition by earlier reads *)
+  c_rv : list rvstmt;                 (* Schedule.read_value (generated) *)
   c_power : Z; c_soc : Z;
   c_offline : Z * list Z * list Z;    (* register, bytes for True, bytes for False *)
   c_clear : Z * Z;                    (* register, value *)
@@ -45,8 +46,9 @@ Definition run_mstep (c : mctx) (st : mstep) (r : rfile) : res rfile :=
   | MEcoGroup charge =>
       match lookup "eco_mode_1" (c_settings c) with
       | Some s =>
-          (* the type detected by reading the current group, or the one the definition already had when that read fails *)
-          let cur := match read_setting r s with Ok (VSched x) => sc_type x | _ => c_prev_ty c end in
+          (* the type the definition holds after the attempted read of the current group: read_value assigns the detected type before it
+             checks the power / SoC ranges, and keeps the previous type when it fails earlier (the ValueError is swallowed) *)
+          let cur := d_ty (fst (run_rv (c_rv c) (sdef0 (c_prev_ty c) None) (rf_bytes r (s_offset s) 6) 0)) in
           let ty := set_schedule_type_eco' cur (c_is745 c) in
           let raw := if charge then sched_encode_charge ty (c_power c) (c_soc c) else sched_encode_discharge ty (c_power c) in
           Ok (rf_write_bytes r (s_offset s) raw)
